@@ -55,8 +55,17 @@ def derivative(poly: PolyLike, *diffvars: Union[ndpoly, str, int]) -> ndpoly:
             (exponent[idx] * coefficient.T).T
             for exponent, coefficient in zip(exponents, poly.coefficients)
         ]
-        exponents[:, idx] -= 1
-        assert not numpy.any(exponents < 0)
+        # terms free of the variable differentiate to zero; their exponent
+        # must not wrap around below zero (exponents are unsigned)
+        exponents[:, idx] -= numpy.minimum(exponents[:, idx], 1)
+        _, unique = numpy.unique(exponents, axis=0, return_index=True)
+        if len(unique) < len(exponents):
+            lookup = {}
+            for exponent, coefficient in zip(exponents.tolist(), coefficients):
+                key = tuple(exponent)
+                lookup[key] = lookup[key] + coefficient if key in lookup else coefficient
+            exponents = numpy.array(list(lookup), dtype=exponents.dtype)
+            coefficients = list(lookup.values())
 
         poly = numpoly.ndpoly.from_attributes(
             exponents=exponents,
